@@ -339,8 +339,9 @@ func join(x []string) string {
 	return strings.Join(x, ",")
 }
 
-// replayDir re-runs a stored script.
-func replayDir(dc dirCase) (string, *director) {
+// replayDir re-runs a stored script. Operations a client cannot issue in the state the real scheduler is in now (the
+// script was recorded against a possibly different scheduler) are dropped, so that the replayed case is a legal script.
+func replayDir(dc dirCase) (dirCase, string, *director) {
 	var dones []bool
 	if dc.Dones != "-" {
 		for _, c := range dc.Dones {
@@ -348,7 +349,7 @@ func replayDir(dc dirCase) (string, *director) {
 		}
 	}
 	d := newDirector(dc.Cap, dc.Batchdiv, dones)
-	var obs []string
+	var obs, done []string
 	if dc.Ops != "-" {
 		for _, o := range strings.Split(dc.Ops, ",") {
 			var i int
@@ -357,24 +358,36 @@ func replayDir(dc dirCase) (string, *director) {
 				break
 			}
 			p := d.procs[i]
-			// skip operations a client cannot issue (keeps shrunk replays meaningful)
 			switch o[0] {
 			case 'a':
 				if p.pending != nil || p.st != "idle" {
-					obs = append(obs, "?")
 					continue
 				}
 			case 'y', 'x', 'r':
 				if p.pending != nil || p.st != "run" {
-					obs = append(obs, "?")
 					continue
 				}
 			}
+			done = append(done, o)
 			obs = append(obs, d.do(o[0], i))
 		}
 	}
+	// wind down as the generator does
+	for i := range d.procs {
+		if !d.stuck && d.procs[i].pending != nil {
+			done = append(done, fmt.Sprintf("c%d", i))
+			obs = append(obs, d.do('c', i))
+		}
+	}
+	for i := range d.procs {
+		if !d.stuck && d.procs[i].pending == nil && d.procs[i].st == "run" {
+			done = append(done, fmt.Sprintf("r%d", i))
+			obs = append(obs, d.do('r', i))
+		}
+	}
+	dc.Ops = join(done)
 	snap := d.s.Snapshot()
-	return fmt.Sprintf("caps=%d.%d obs=%s", snap.SizeI, snap.SizeB, join(obs)), d
+	return dc, fmt.Sprintf("caps=%d.%d obs=%s", snap.SizeI, snap.SizeB, join(obs)), d
 }
 
 func emitDir(w *gen.Writer, dc dirCase, impl string, d *director, class string) {
@@ -802,8 +815,8 @@ func runStored(w *gen.Writer, st stored, class string) {
 		if err := json.Unmarshal(st.Case, &dc); err != nil {
 			panic(err)
 		}
-		impl, d := replayDir(dc)
-		emitDir(w, dc, impl, d, class)
+		dc2, impl, d := replayDir(dc)
+		emitDir(w, dc2, impl, d, class)
 	case "trace":
 		var cfg traceCfg
 		json.Unmarshal(st.Case, &cfg)
